@@ -429,12 +429,48 @@ impl Drop for TransactionPermit {
             let tx = self.tx.clone();
 
             tokio::spawn(async move {
+                #[cfg(p2panda_p2panda_verif)]
+                verif_hooks::point("drop:before-rollback").await;
+
                 if let Some(tx) = tx.lock().await.take() {
                     let _ = tx.rollback().await;
                 }
 
+                #[cfg(p2panda_p2panda_verif)]
+                verif_hooks::point("drop:after-rollback-before-release").await;
+
                 drop(permit); // Semaphore released only after rollback completes.
             });
+        }
+    }
+}
+
+/// Schedule points for the verification harness (compiled only with `--cfg p2panda_p2panda_verif`).
+///
+/// The harness installs an async callback which is awaited by the clean-up task spawned in
+/// `TransactionPermit::drop` at named points, so that it can park that task there and interleave
+/// other tasks deterministically. Without an installed callback the points do nothing.
+#[cfg(p2panda_p2panda_verif)]
+pub mod verif_hooks {
+    use std::future::Future;
+    use std::pin::Pin;
+    use std::sync::{Arc, Mutex};
+
+    /// Callback awaited at every schedule point with the point's name.
+    pub type Hook =
+        Arc<dyn Fn(&'static str) -> Pin<Box<dyn Future<Output = ()> + Send>> + Send + Sync>;
+
+    static HOOK: Mutex<Option<Hook>> = Mutex::new(None);
+
+    /// Installs (or with `None` removes) the process-wide schedule-point callback.
+    pub fn set(hook: Option<Hook>) {
+        *HOOK.lock().expect("hook lock") = hook;
+    }
+
+    pub(crate) async fn point(name: &'static str) {
+        let hook = HOOK.lock().expect("hook lock").clone();
+        if let Some(hook) = hook {
+            hook(name).await;
         }
     }
 }
